@@ -1,11 +1,17 @@
 #!/usr/bin/env python3
-"""usage: record_round.py <prefix> <first-try-log> <confirm-log> [notes.json]
+"""usage: record_round.py <prefix> <first-try-log> <confirm-log> [notes.json] [final-try-log]
 Writes check_result / confirmed_by_builder into seeded/<prefix>*/meta.json from
 the logs of tools/try_seeded.sh (first run) and tools/confirm_seeded.sh (final
 state, scratch worktree)."""
 import json, sys, re, os, glob
 prefix, first_log, confirm_log = sys.argv[1:4]
 notes = json.load(open(sys.argv[4])) if len(sys.argv) > 4 else {}
+final_log = sys.argv[5] if len(sys.argv) > 5 else None
+final = {}
+if final_log:
+    for l in open(final_log, errors='replace'):
+        m = re.match(r'(\S+) (C\d\d) exit=(\d+)\s*(?:signature: (.*))?', l)
+        if m: final[m.group(1)] = (m.group(2), int(m.group(3)), (m.group(4) or '').strip() or None)
 root = os.path.dirname(os.path.dirname(os.path.abspath(__file__)))
 first = {}
 for l in open(first_log, errors='replace'):
@@ -23,7 +29,25 @@ for d in sorted(glob.glob(os.path.join(root, 'seeded', prefix + '*'))):
     c = conf.get(key)
     f = first.get(name)
     if not c:
-        print('no confirmation for', name); continue
+        fin = final.get(name)
+        if not fin:
+            print('no result for', name); continue
+        owner, code, sig = fin
+        cr = {
+          'status': 'caught' if code == 1 else 'missed',
+          'first_signature': sig,
+          'command': f'git -C /repo apply patch.diff && ./run.sh {owner} quick (then reverted; tools/try_seeded.sh)',
+        }
+        if f is not None:
+            cr['first_run'] = 'caught (owner check exit 1)' if f[0] == 1 else ('harness error (owner check exit 2)' if f[0] == 2 else 'missed (owner check exit 0)')
+        if name in notes:
+            cr['note'] = notes[name]
+        meta['check_result'] = cr
+        meta['confirmed_by_builder'] = ('patch applied to the current tree and the owning quick check run by the builder (tools/try_seeded.sh); '
+          'the demonstration and the test-suite runs are as reported by the author of the change in "ran", the builder\'s own re-run in a scratch worktree (tools/confirm_seeded.sh) did not get to this change before the end of the round')
+        json.dump(meta, open(mp, 'w'), indent=1, ensure_ascii=False)
+        print(name, cr['status'], sig, '(not re-confirmed)')
+        continue
     clean, suite, lib, demo, owner, chk, sig = c
     caught = chk == '1'
     cr = {
